@@ -142,6 +142,10 @@ def specs(tier):
         ("preamble", [("preamble", v)]),
         ("comment", [("comment", v)]),
         ("free", [("free", 3)]),
+        ("entry1-hw", [("entry", 1, 1, 2, 0, False, 1)]),
+        ("string-hw", [("string", 1, 2, 0, 1)]),
+        ("preamble-hw", [("preamble", 2, 1)]),
+        ("comment-hw", [("comment", 2, 1)]),
     ]
     small = {"entry": ("entry", 1, 1, 1, 0, False), "string": ("string", 1, 1, 0), "preamble": ("preamble", 1),
              "comment": ("comment", 1), "free": ("free", 2)}
